@@ -94,6 +94,16 @@ CLAIMED = {
         "differential property-based testing (Hypothesis) under a shared scripted/seeded random stream",
         "3/C13",
     ),
+    "C07": (
+        "Axiomatic oracle sharing nothing with the implementation: on generated profiles with planted solid "
+        "coalitions, for EVERY non-empty candidate subset S (all 2^n-1, n <= 6) the finished Droop STV / IRV count "
+        "must elect at least min(floor(W(S)/threshold), |S|, m) members of S, with either transfer rule, both "
+        "modes, scripted or seeded random tiebreaks and random transfers.  Thorough adds the exhaustive "
+        "3-candidate profiles.",
+        "W(S) counts ballots whose first |S| places are exactly S; runs that raise are left to C01/C02.",
+        "property-based testing (Hypothesis, planted coalitions) against the Droop-proportionality axiom over all subsets",
+        "3/C07",
+    ),
 }
 
 PENDING_REASON = "check not built yet in this session; the design (DESIGN.md section 3) claims it and it will be registered once it is quiet on the unchanged tree and catches its mutants"
